@@ -78,8 +78,11 @@ class LeanEmitter(Evaluator):
         doc = f"/-- {f.doc.strip()} -/\n" if f.doc.strip() else ""
         return f"{doc}def {f.name} {cfg}{params} : {self.sort(f.ret)} :=\n{self.pad()}{body.v}\n"
 
-    def emit_all(self, header="import HV.Prim\nset_option linter.unusedVariables false\nnamespace HV\n", footer="end HV\n"):
-        parts = [header, self.emit_adts(), self.emit_cfg()]
+    def emit_sorts(self):
+        return "import HV.Prim\n/- GENERATED (hv.emit_lean): the algebraic sorts of the L1 specs -/\nnamespace HV\n\n" + self.emit_adts() + "\nend HV\n"
+
+    def emit_all(self, header="import HV.PrimL\nset_option linter.unusedVariables false\nnamespace HV\n", footer="end HV\n"):
+        parts = [header, self.emit_cfg()]
         for comp in self.reg.sccs():
             if len(comp) > 1:
                 parts.append("mutual")
